@@ -206,6 +206,21 @@ def families(tier, seed):
     return fams
 
 
+def _twin_line_polyhedron_single_hit():
+    """mutant: a line that meets a polyhedron in a single point (vertex / edge contact) is reported as disjoint"""
+    import sys as _sys
+    it = _sys.modules['Geometry3D.calc.intersection']
+    orig = it.inter_line_convexpolyhedron
+
+    def f(l, cph):
+        r = orig(l, cph)
+        return None if isinstance(r, Point) else r
+    it.inter_line_convexpolyhedron = f
+
+
+TWINS = {'line touching a polyhedron -> None': (r'^Line/Polyhedron-cube@axis/vertex-edge-inplane/', _twin_line_polyhedron_single_hit)}
+
+
 META = dict(
     title='flat x convex body intersection is exact',
     level_text=('Bounded symbolic model checking of the real intersection() code for Point/Line/HalfLine/Segment/Plane against concrete lattice '
